@@ -236,6 +236,7 @@ def run(rep, repo, tier):
         rep.inconclusive('C16.R3', parse_where, 'the guards of the parser.error calls can be evaluated on two-criterion valuations', got=str(u))
     check_helper(rep, repo, helper, N)
     check_extras_isolation(rep, repo, tier)
+    check_extras_unfiltered(rep, repo, tier)
     check_extras_not_consumed(rep, repo)
 
     # ---- R4 ----------------------------------------------------------------------------------------------
@@ -467,6 +468,80 @@ def check_extras_isolation(rep, repo, tier, rule='C16.R6'):
                  spec.CRITERIA[x]['dest'], spec.CRITERIA[y]['dest'], ev.kind, y, x), want='extras stay with their own criterion', construct='extras of %s leak into %s' % (x, y), loc=ev.loc)
     else:
         rep.ok(rule, where, 'in %d ordered pairs (criterion with extras, criterion without) the second never sees the first one\'s extras' % len(pairs), got='no leak')
+
+
+def filtered_extras(t, syms):
+    """Places where an optional argument is TRUTH-TESTED before it is used, so that a legal falsy value (0) is replaced by
+    something else:  `a or d` with d != 0,  `a and y`,  `not a`,  `y if a else z` with y[a:=0] != z[a:=0].  -> [text]"""
+    from ..terms import simp, subst
+    subst_term = lambda t_, m: subst(t_, lambda x: m.get(x))
+    out = []
+
+    def isarg(x):
+        return x in syms or (x[0] == 'call' and x[1] in (S('int'), S('bool')) and len(x[2]) == 1 and x[2][0] in syms)
+
+    def walk(t):
+        if not isinstance(t, tuple) or not t:
+            return
+        if isinstance(t[0], str):
+            if t[0] == 'obj':
+                return
+            if t[0] == 'bool':
+                ops = t[2]
+                for i, x in enumerate(ops[:-1]):
+                    if isarg(x):
+                        if t[1] == 'or' and i == len(ops) - 2 and ops[-1] == C(0):
+                            continue                      # a or 0  is  a  on the integers
+                        out.append(show(t))
+            elif t[0] == 'not' and isarg(t[1]):
+                out.append(show(t))
+            elif t[0] == 'ite' and isarg(t[1]):
+                a = t[1] if t[1] in syms else t[1][2][0]
+                try:
+                    same = simp(subst_term(t[2], {a: C(0)})) == simp(subst_term(t[3], {a: C(0)}))
+                except Exception:
+                    same = False
+                if not same:
+                    out.append(show(t))
+            for z in t[1:]:
+                walk(z)
+        else:
+            for z in t:
+                walk(z)
+    walk(t)
+    return out
+
+
+def check_extras_unfiltered(rep, repo, tier, rule='C16.R6'):
+    """R6 (consumer side, values): every optional argument reaches its criterion as given - also 0, a legal multiplier and the
+    cut-off that leaves nothing to optimise.  A truth test on the argument (`extras and extras[0] or default`) swaps 0 for the
+    default."""
+    where = repo.method('LP_Solver', 'run_optimisations').where
+    n_cfg = 0
+    for name, sp in spec.CRITERIA.items():
+        for arity in range(1, sp['nextras'] + 1):
+            try:
+                r = lpfacts.get_run(repo, False, False, [lpfacts.crit_config(name, arity)])
+            except AnalysisError as u:
+                rep.inconclusive(rule, where, '[%s/%d extras] is inside the interpreted fragment' % (name, arity), got=str(u)[:120])
+                return
+            n_cfg += 1
+            syms = {S('arg%d' % i) for i in range(arity)}
+            for ev in r.events:
+                conds = [c.cond for c, br in (ev.sym_ifs or ())]
+                for k_, t in list(ev.eff.__dict__.items()) + [('if', c) for c in conds]:
+                    if not (isinstance(t, tuple) and t and isinstance(t[0], str)):
+                        continue
+                    bad = filtered_extras(t, syms)
+                    if k_ == 'if' and (t in syms or (t[0] == 'not' and t[1] in syms)):
+                        bad.append('if ' + show(t))
+                    if bad:
+                        rep.fail(rule, ev.where, 'optional arguments reach %s as given (0 included)' % name, got='[%s/%d extras] %s: %s' % (name, arity, ev.kind, bad[0][:120]),
+                                 want='the argument itself, not a truth test of it', construct='extras of %s truth-tested' % name, loc=ev.loc)
+                        return
+    rep.count('extras_unfiltered_configs', n_cfg)
+    rep.ok(rule, where, 'in %d (criterion, number of optional arguments) specialisations no optional argument is truth-tested on its way into an info line, a loop bound or a constraint' % n_cfg,
+           got='no truth test')
 
 
 def check_info_lines(rep, repo, tier):
